@@ -459,7 +459,7 @@ func finishSeq(t vkit.TB, c Case, out outcome) {
 func TestSequentialModel(t *testing.T) {
 	maxOps := 40
 	maxSleeps := vkit.Pick(2, 3)
-	vkit.Check(t, 3000, 60000, func(t *rapid.T) {
+	vkit.Check(t, 3000, 40000, func(t *rapid.T) {
 		n := rapid.IntRange(4, maxOps).Draw(t, "nops")
 		// shadow model used only to bias argument generation (time = sleeps)
 		shadow := map[string]kstate{}
